@@ -96,7 +96,17 @@ UNITS["C16"] = [
                       "the uni handler captures cluster_id once per connection (runtime switch of cluster id not covered)"]),
 ]
 
+UNITS["C05"] = [
+    dict(kind="verus", name="c05_serve", template="specs/c05_serve.vrs",
+         under_contract=["frag_prefilter", "frag_empties_full", "frag_empties_partial", "frag_clip", "lemma_sql_selects_iff_overlap"],
+         vacuity=["frag_prefilter", "frag_empties_full", "frag_empties_partial", "frag_clip"],
+         assumptions=["fragments wrapped as functions; `continue` -> return Exit::Continue; Option::is_some_and / RangeInclusive::all replaced by contract stand-ins with the real closures kept (closure ensures spliced)",
+                      "`buffered` / `in_gaps` are the results of the two EXISTS sub-queries (SQL not interpreted here)",
+                      "SQL WHERE fragment translated by vx/sqlpred.py; SQLite integer comparison treated as mathematics"]),
+]
+
 NOTES = {
+    "C05": "safety guards of the sync server: pre-filter, empties decisions, partial-range clipping and its SQL overlap clause; send_change_chunks in unit c05_send",
     "C16": "the cluster-id decision sites as fragments: uni dispatch, serve_sync prologue, sync-candidate filter, broadcast-target filter",
     "C17": "token decision fragment (Verus), route/middleware ordering and read-only-guard dominance (structural obligations on the real text)",
     "C04": "fragments of SyncStateV1::compute_available_needs: own-actor/zero-head guards, Full needs (sound + complete w.r.t. peer-held set), tail request above our head",
